@@ -102,8 +102,13 @@ Definition dim_iters (s : sched) (d : nat) : Z :=
   zprod (map (fun c => snd (fst c))
              (filter (fun c => match first_nz (snd c) with Some d' => Nat.eqb d' d | None => false end) (rev_columns s))).
 
-(* the schedule iterates over every dimension at least as often as the dimension is long *)
-Definition schedule_covers (s : sched) (shape : list Z) : bool :=
-  forallb (fun p => (0 <? snd p) && (snd p <=? dim_iters s (fst p))) (combine (seq 0 (length shape)) shape).
+(* the schedule iterates over every dimension at least as often as the dimension is long
+   (and the dimension is static and non-empty) *)
+Fixpoint covers_from (s : sched) (d : nat) (shape : list Z) : bool :=
+  match shape with
+  | [] => true
+  | n :: r => (0 <? n) && (n <=? dim_iters s d) && covers_from s (S d) r
+  end.
+Definition schedule_covers (s : sched) (shape : list Z) : bool := covers_from s 0 shape.
 
 Definition covers (shape : list Z) (l : layout) : bool := list_eqb Z.eqb (shape_of l) shape.
